@@ -59,7 +59,7 @@ def _short_lived_plots():
             gc.collect()
 
 
-def body(ctx, conv, shape, bounds, layout, nan_cells=None, mesh_opts=None, mode='name', coord_dtype=None, lon_transposed=False, after_others=False):
+def body(ctx, conv, shape, bounds, layout, nan_cells=None, mesh_opts=None, mode='name', coord_dtype=None, lon_transposed=False, after_others=False, explicit=False):
     import xarray
     if after_others and not ctx.symbolic:
         _short_lived_plots()
@@ -87,7 +87,11 @@ def body(ctx, conv, shape, bounds, layout, nan_cells=None, mesh_opts=None, mode=
         other_grid = ('nnode',), (len(pipeline.builders.MESHES[shape][0]),)
     if other_grid is not None:
         data['elsewhere'] = (other_grid[0], numpy.arange(int(numpy.prod(other_grid[1])), dtype=float).reshape(other_grid[1]))
-    P = pipeline.build(ctx, conv, shape, bounds=bounds, nan_cells=nan_cells, data=data, mesh_opts=mesh_opts, coord_dtype=coord_dtype)
+    pipeline.EXPLICIT_NAMES = explicit
+    try:
+        P = pipeline.build(ctx, conv, shape, bounds=bounds, nan_cells=nan_cells, data=data, mesh_opts=mesh_opts, coord_dtype=coord_dtype)
+    finally:
+        pipeline.EXPLICIT_NAMES = False
     cv, ds = P.convention, P.ds
     if lon_transposed:
         # the longitude variable stored (x, y) next to a latitude stored (y, x): the grid is (y, x) all the same
@@ -131,7 +135,16 @@ def body(ctx, conv, shape, bounds, layout, nan_cells=None, mesh_opts=None, mode=
         return verts, (None if coll.get_array() is None else numpy.asarray(coll.get_array())), coll.get_clim(), {}
 
     if mode in ('name', 'array'):
-        arg = 'temp' if mode == 'name' else ds['temp']
+        # (array: values derived from a dataset variable - same name, same dimensions, other numbers; what is plotted
+        # is the array that was handed over)
+        scale = 1 if mode == 'name' else 2
+        arg = 'temp' if mode == 'name' else ds['temp'] * 2 + 1
+        if mode == 'array':
+            ctx.check(arg.name == 'temp' and arg.dims == ds['temp'].dims, 'harness: the derived array keeps name and dimensions')
+            _plain = value_at
+
+            def value_at(arr, n, _plain=_plain):
+                return _plain(arr, n) * 2 + 1
         coll = cv.make_poly_collection(arg)
         verts, array, clim, kw = inspect(coll)
         ctx.check(len(verts) == len(present), 'one patch per cell that has geometry, none for holes')
@@ -315,6 +328,10 @@ def cases(tier):
         yield Case(f'{conv}:{shape[0]}x{shape[1]}:{bounds}:plain:name:after-other-datasets', body,
                    dict(conv=conv, shape=shape, bounds=bounds, layout='plain', nan_cells=nan_cells, mode='name', after_others=True),
                    patches=_patches(), max_paths=5000, split=8)
+    # coordinate variables named by the caller
+    for mode in ('name', 'quiver'):
+        yield Case(f'cf1d:2x3:none:nan0:plain:{mode}:explicit-names', body,
+                   dict(conv='cf1d', shape=(2, 3), bounds='none', layout='plain', nan_cells=(), mode=mode, explicit=True), patches=_patches(), max_paths=5000, split=8)
     yield Case('cf2d:2x3:stored:nan0:plain:quiver:longitude-stored-transposed', body,
                dict(conv='cf2d', shape=(2, 3), bounds='stored', layout='plain', nan_cells=(), mode='quiver', lon_transposed=True),
                patches=_patches(), max_paths=5000, split=8)
